@@ -13,6 +13,7 @@ REGISTRY = {
     "C16": ("harness.checks.quad_check", "C16"),
     "C18": ("harness.checks.curves_check", "C18"),
     "C17": ("harness.checks.assembly_check", "C17"),
+    "C01": ("harness.checks.c01_check", "C01"),
 }
 
 
